@@ -19,7 +19,10 @@ R_CLEAN=$(go test -vet=off -count=1 -run 'TestSeedDemo' $PKG 2>&1 | tail -1)
 git apply "$SRC/patch.diff" || { echo "$S: PATCH DOES NOT APPLY"; exit 3; }
 go build ./... || { echo "$S: DOES NOT BUILD"; exit 3; }
 R_MUT=$(go test -vet=off -count=1 -run 'TestSeedDemo' $PKG 2>&1 | tail -1)
-R_SUITE=$(go test -vet=off -count=1 -timeout 25m -skip 'TestSeedDemo' ./... 2>&1 | grep -E '^(ok|FAIL|---)' | tr '\n' ' ')
+go test -vet=off -count=1 -timeout 25m -skip 'TestSeedDemo' ./... > /tmp/seedchk.$S.suite.log 2>&1
+R_SUITE=$(grep -E '^(ok|FAIL|--- FAIL|panic:)' /tmp/seedchk.$S.suite.log | tr '\n' ' ')
+if grep -q '^FAIL' /tmp/seedchk.$S.suite.log && ! grep -q '^--- FAIL' /tmp/seedchk.$S.suite.log; then R_SUITE="$R_SUITE tail=[$(tail -5 /tmp/seedchk.$S.suite.log | tr '\n' ' ' | cut -c1-400)]"; fi
+rm -f /tmp/seedchk.$S.suite.log
 # socket/port based tests flake when other suites run on the machine: re-run failing top-level tests alone
 FAILED=$(echo "$R_SUITE" | grep -oE -- '--- FAIL: [A-Za-z0-9_]+' | awk '{print $3}' | sort -u | tr '\n' '|' | sed 's/|$//')
 if [ -n "$FAILED" ]; then
